@@ -17,6 +17,7 @@ MIRDUMP_CC = ["gcc", "-O1", "-w", "-DMIR_DIRECT_DISPATCH", "-I" + REPO]
 TOOLS = os.path.join(VERIF, "tools")
 GEN_LEVELS = {"quick": [2, 0], "thorough": [0, 1, 2, 3]}
 SIG_CODE = {"i64": 1, "f": 2, "d": 3, "ld": 4}
+DEFERRED = []
 
 
 def build_mirdump(scratch, extra=()):
@@ -126,12 +127,27 @@ def prepare(tier, scratch):
         raise RuntimeError("mirdump failed on the generated corpus: " + p.stderr[-2000:])
     cases = json.load(open(os.path.join(scratch, "c02_cases.json")))
     obs = []
+    del DEFERRED[:]
     for c in cases:
-        obs.append(Ob("interp." + c["name"], "C02/interp.c", defs=["MIR_DIRECT_DISPATCH"], cc=["-I" + scratch], entry=c["entry"],
-                      loops={"eval#0": 14}, unwind=12, checks="functional", timeout=900 if c["heavy"] else 300,
-                      solver="z3" if c["heavy"] else None, object_bits=10,
-                      paths=(c["group"] in ("branch", "ovf") or c["name"].startswith("fpb_")),
+        solver, timeout = ("z3", 900) if c["heavy"] else (None, 300)
+        n = c["name"]
+        if n.startswith(("fp3_", "cv_")):
+            # fp arithmetic / conversions through the interpreter: the operands live in the MIR_val_t union, so cbmc --fpa is not
+            # usable ("flatten2bv of a non-constant FPA-encoded float is unsupported") and bit-blasted z3 gave no verdict in 900 s
+            # for DMUL, DDIV, LDADD, LDSUB (FMUL 152 s, FDIV 222 s).  SAT (CaDiCaL) on CBMC's float encoding instead; the
+            # double / long double multipliers and dividers and long double adders only in the thorough tier.
+            solver, timeout = "cadical", 600
+            if n in ("fp3_DMUL", "fp3_DDIV") or n.startswith("fp3_LD"):
+                if tier != "thorough":
+                    DEFERRED.append("interp." + n)
+                    continue
+                timeout = 1800
+        obs.append(Ob("interp." + n, "C02/interp.c", defs=["MIR_DIRECT_DISPATCH"], cc=["-I" + scratch], entry=c["entry"],
+                      loops={"eval#0": 14}, unwind=12, checks="functional", timeout=timeout,
+                      solver=solver, object_bits=10,
+                      paths=(c["group"] in ("branch", "ovf") or n.startswith("fpb_")),
                       sample="interpreter: " + c["sample"]))
+    META["bounds"]["deferred_to_thorough"] = list(DEFERRED)
     obs += gen_obs(tier, scratch, cases)
     # the few long-running obligations (mul/div, fp arithmetic, long double) first, so that they overlap with the many short ones
     obs.sort(key=lambda o: 0 if (o.solver in ("z3", "cadical") or o.timeout > 300) else 1)
